@@ -56,7 +56,7 @@ func main() {
 	}
 	var names []string
 	for n := range registry.Probes {
-		if strings.HasPrefix(n, "core_") {
+		if (strings.HasPrefix(n, "core_") || strings.HasPrefix(n, "rnd_")) {
 			names = append(names, n)
 		}
 	}
